@@ -38,6 +38,10 @@
 
 namespace Avoid {
 
+#ifdef ADAPTAGRAMS_VERIF
+HyperedgeTreeVerifHook hyperedgeTreeVerifHook = nullptr;
+#endif
+
 class HyperedgeShiftSegment : public ShiftSegment
 {
     public:
@@ -402,7 +406,19 @@ void HyperedgeImprover::removeZeroLengthEdges(void)
     {
         HyperedgeTreeNode *node = m_hyperedge_tree_junctions[*curr];
 
+#ifdef ADAPTAGRAMS_VERIF
+        if (hyperedgeTreeVerifHook)
+        {
+            hyperedgeTreeVerifHook(this, "rzle", 0, node, nullptr);
+        }
+#endif
         removeZeroLengthEdges(node, nullptr);
+#ifdef ADAPTAGRAMS_VERIF
+        if (hyperedgeTreeVerifHook)
+        {
+            hyperedgeTreeVerifHook(this, "rzle", 1, node, nullptr);
+        }
+#endif
     }
 }
 
@@ -628,6 +644,12 @@ void HyperedgeImprover::writeHyperedgeSegmentsBackToConnPaths(void)
             HyperedgeTreeNode *node = m_hyperedge_tree_junctions[*curr];
 
             node->writeEdgesToConns(nullptr, pass);
+#ifdef ADAPTAGRAMS_VERIF
+            if (hyperedgeTreeVerifHook && (pass == 1))
+            {
+                hyperedgeTreeVerifHook(this, "write", 1, node, nullptr);
+            }
+#endif
         }
     }
 }
@@ -1047,6 +1069,12 @@ HyperedgeTreeNode *HyperedgeImprover::moveJunctionAlongCommonEdge(
         HyperedgeTreeNode *self, bool& nodeMapHasChanged)
 {
     COLA_ASSERT(self->junction);
+#ifdef ADAPTAGRAMS_VERIF
+    if (hyperedgeTreeVerifHook)
+    {
+        hyperedgeTreeVerifHook(this, "move", 0, self, nullptr);
+    }
+#endif
 
     HyperedgeTreeNode *newSelf = nullptr;
     std::vector<HyperedgeTreeEdge *> commonEdges;
@@ -1223,6 +1251,14 @@ HyperedgeTreeNode *HyperedgeImprover::moveJunctionAlongCommonEdge(
         }
     }
 
+#ifdef ADAPTAGRAMS_VERIF
+    if (hyperedgeTreeVerifHook)
+    {
+        // NB: when the junction moved and its old node had no other edge,
+        // 'self' has been freed; the hook gets the pointer only as a key.
+        hyperedgeTreeVerifHook(this, "move", 1, self, newSelf);
+    }
+#endif
     return newSelf;
 }
 
